@@ -671,7 +671,7 @@ pub fn eval_audio(c: &AudioCase) -> Outcome {
         let data = if audio == 7 {
             OpusGene { config: 4, stereo: false, code: 0, count_byte: 0, len: 10, corrupt: 0 }.build(i as u64).0
         } else {
-            AdtsGene { protection_absent: true, profile: 1, sfi: 3, chan: 1, payload_len: 10, extra: 0, fill: 0, corrupt: 0 }.build(i as u64).0
+            AdtsGene { protection_absent: true, profile: 1, sfi: 3, chan: 1, payload_len: 10, extra: 0, fill: 0, corrupt: 0 , misc: 0}.build(i as u64).0
         };
         ops.push(COp::Audio { pts: i as f64 * 0.02, data });
     }
